@@ -18,7 +18,7 @@ class C14(Prop):
     id = "C14"
     rule = (
         "cases = the deterministic server-stack workflow with a delayed retry (retry delay D in {2,5,20}) and/or a final "
-        "wait_for_event(timeout=T in {4,15}) nobody answers in time, served by the real WorkflowServer with a generated idle_timeout "
+        "wait_for_event(timeout=T in {4,15}) nobody answers in time (optionally preceded, in the same step, by a wait for a confirmation the harness gives once), served by the real WorkflowServer with a generated idle_timeout "
         "I in {1,3,6,10,30,never} (both sides of D and T), optionally a process stop + reboot over the same store at a generated virtual "
         "instant, and a late human reply at t=200 for waits without timeout (waits with a timeout get no reply at all). Oracle at the virtual horizon (>> D, T, I): the handler is "
         "terminal and 'completed'; every job was retried to completion; a wait whose timeout was due before the late reply ended with "
@@ -55,7 +55,7 @@ class C14(Prop):
         restart_at = case.pop("restart_at")
         ge = genwf.M()["ge"]
         log: dict = {"life": 0}
-        obs = {"released": [], "reloaded": [], "restart": None, "row": None, "sent_reply": None, "reply_error": None}
+        obs = {"released": [], "reloaded": [], "restart": None, "row": None, "sent_reply": None, "reply_error": None, "pre_sent": None}
         horizon = 400.0 + 10 * sum(j["d"] * case["attempts"] for j in case["jobs"])
 
         async def main():
@@ -92,7 +92,26 @@ class C14(Prop):
                         was = active
 
                 mon = asyncio.create_task(monitor())
-                harness = {mon, asyncio.current_task()}
+
+                async def confirm_once():
+                    # the human confirms once, one second after being asked the first time (through whichever server life is up)
+                    while not log.get("pre_asked"):
+                        await asyncio.sleep(0.25)
+                    await asyncio.sleep(max(0.0, log["pre_asked"][0] + 1.0 - VClock.t))
+                    for _ in range(40):
+                        lf = cur["life"]
+                        if lf is not None and not lf.dead:
+                            try:
+                                await lf.server._service.send_event("h1", ge.Reply2(key="pre"))
+                                obs["pre_sent"] = VClock.t
+                                return
+                            except Exception as e:  # noqa: BLE001
+                                obs["pre_error"] = repr(e)[:160]
+                                return
+                        await asyncio.sleep(0.25)
+
+                conf = asyncio.create_task(confirm_once()) if case.get("pre_wait") else None
+                harness = {mon, asyncio.current_task()} | ({conf} if conf is not None else set())
                 if restart_at is not None:
                     await asyncio.sleep(max(0.0, restart_at - VClock.t))
                     row = await srv.handler_row(store, "h1")
@@ -116,7 +135,9 @@ class C14(Prop):
                 row = await srv.wait_terminal(store, "h1", horizon - VClock.t if horizon > VClock.t else 1.0)
                 obs["row"] = {"status": row.status if row else None, "result": srv.result_of(row), "error": row.error if row else None, "idle": bool(row and row.idle_since)}
                 mon.cancel()
-                await asyncio.gather(mon, return_exceptions=True)
+                if conf is not None:
+                    conf.cancel()
+                await asyncio.gather(mon, *([conf] if conf is not None else []), return_exceptions=True)
                 await srv.kill_life(life)
             finally:
                 srv.cleanup_tmp(tmp)
@@ -135,7 +156,7 @@ class C14(Prop):
             if e["exit"] == "raised" and e["attempt"] + 1 < case["attempts"] and D > 0 and e["t_out"] is not None:
                 pend.append((e["t_out"], e["t_out"] + D, "retry"))
         T = case.get("wait_timeout")
-        asked = log.get("ask_in", [])
+        asked = log.get("wait_at", [])  # the instant the (timed) wait was first registered
         if case.get("wait") and T and asked:
             pend.append((asked[0], asked[0] + T, "waiter_timeout"))
 
@@ -145,7 +166,7 @@ class C14(Prop):
         # a release is legitimate only after idle_timeout seconds without any activity of the run
         acts = sorted(
             [e["t_in"] for e in log["work"]] + [e["t_out"] for e in log["work"] if e["t_out"] is not None]
-            + list(log.get("ask_in", [])) + [a["t"] for a in log.get("asked", [])] + [s_["t"] for s_ in log.get("start", [])]
+            + list(log.get("ask_in", [])) + [a["t"] for a in log.get("asked", [])] + [s_["t"] for s_ in log.get("start", [])] + list(log.get("pre_got", []))
             + ([obs["restart"]] if obs["restart"] is not None else [])
         )
         early = []
@@ -170,6 +191,8 @@ class C14(Prop):
         if case.get("wait"):
             exp_reply = "timeout" if timeout_due_first else "k"
         expected = srv.expected_result(case, exp_reply)
+        if obs.get("pre_error"):
+            r.v("confirmation_rejected", error=obs["pre_error"], **attrs)
         if obs["reply_error"]:
             r.v("late_reply_rejected", error=obs["reply_error"], **attrs)
         if row.get("status") == "running" or row.get("status") is None:
@@ -192,6 +215,10 @@ class C14(Prop):
             r.classes.append("restart_while_timer_pending")
         if pend:
             r.classes.append("has_timer")
+        if case.get("pre_wait") and obs.get("pre_sent") is not None:
+            r.classes.append("two_sequential_waits")
+            if (obs["restart"] is not None and obs["restart"] > obs["pre_sent"]) or any(t > obs["pre_sent"] for t in obs["released"]):
+                r.classes.append("restart_or_release_while_parked_on_second_wait")
         r.classes.append("status_" + str(row.get("status")))
         r.nontrivial = bool(rel_pending or rst_pending)
         r.sample = {"case": dict(case, store=store_kind, idle_timeout=I, restart_at=restart_at), "released": obs["released"][:3], "reloaded": obs["reloaded"][:3], "restart": obs["restart"], "status": row.get("status"), "work": [[e["idx"], e["life"], e["t_in"], e["t_out"], e["exit"]] for e in log["work"]][:12]}
